@@ -58,7 +58,8 @@ def inventory(j):
         walk(f.get('body'))
         io = f.get('impl_of') or {}
         fns.setdefault(f['def'], {'kind': f['kind'], 'sig': f.get('sig', ''), 'self_adt': io.get('self_adt') or io.get('self_ty'), 'trait': io.get('trait'),
-                                  'callees': sorted(callees), 'nblocks': len((f.get('body') or {}).get('blocks', []))})
+                                  'callees': sorted(callees), 'nblocks': len((f.get('body') or {}).get('blocks', [])),
+                                  'modpriv': bool(f.get('vis')) and str(f.get('vis')).startswith('Restricted') and '::' in str(f.get('vis')).split('~', 1)[-1]})
     adts = {}
     for path, a in j['adts'].items():
         if not a.get('local'):
@@ -114,7 +115,12 @@ def detect(base, cur_inv, cur_txt):
     new = [p for p in c_adts if p not in b_adts]
     paths = []          # (new full path, reference full path): an item that moved to a module whose name already exists
     for m in missing:
-        cands = [n for n in new if c_adts[n] == b_adts[m] or _shape(c_adts[n]) == _shape(b_adts[m])]
+        def same_shape(n_):
+            if c_adts[n_] == b_adts[m] or _shape(c_adts[n_]) == _shape(b_adts[m]):
+                return True
+            sr_ = _seg_renames(m, n_)       # (a type that mentions itself, e.g. a linked node: compare after mapping the candidate's own name back)
+            return bool(sr_) and _sub(json.dumps(_shape(c_adts[n_])), sr_) == json.dumps(_shape(b_adts[m]))
+        cands = [n for n in new if same_shape(n)]
         cands = [n for n in cands if _seg_renames(m, n) or n.rsplit('::', 1)[-1] == m.rsplit('::', 1)[-1]]
         if len(cands) == 1:
             sr = _seg_renames(m, cands[0])
@@ -190,7 +196,8 @@ def _subpaths(txt, paths):
 
 
 def _shape(a):
-    return (a['kind'], [[v, [[f, t] for f, t in fs]] for v, fs in a['variants']])
+    # (the single 'variant' of a struct carries the struct's own name: not part of its shape)
+    return (a['kind'], [[v if a['kind'] == 'enum' else '', [[f, t] for f, t in fs]] for v, fs in a['variants']])
 
 
 def renames_for(raw_std_unimock, raw_std_macros):
